@@ -89,6 +89,10 @@ def cases(tier, seed):
                     for phase in PHASES:
                         out.append({"search": "crash", "functional": fname, "kind": kind, "debug": debug,
                                     "phase": phase, "rg": rg, "extra": 1})
+    # ---- (c) every alias partition of up to 5 (quick) / 6 (thorough) declared names
+    for k in range(1, (6 if quick else 7)):
+        for kindo in ("em", "lo"):
+            out.append({"search": "alias", "k": k, "obj": kindo})
     # the runner hands out consecutive chunks of cases to its workers: spread the long breadth-first cases so
     # that no chunk holds two of them, then the remaining protocol cases, then the crash scenarios
     n = len(out) + len(proto)
@@ -538,7 +542,7 @@ def run_crash(cfg):
 
 from xitorch._utils.attr import get_attr  # noqa: E402   (the library's own by-name reader)
 
-PUSH_LABELS = ["cur", "orig", "f1", "f2", "alias", "mix"]
+PUSH_LABELS = ["cur", "orig", "f1", "f2", "alias", "mix", "first"]
 BFS_PUSH_LABELS = ["cur", "orig", "f1", "alias"]
 
 
@@ -606,7 +610,9 @@ class PWorld:
             alias = [z, z] + [self._fresh(t) for t in self.orig[2:]] if self.m >= 2 and \
                 self.orig[0].shape == self.orig[1].shape else [self._fresh(t) for t in self.orig]
         mix = [self.orig[0]] + f1[1:]
-        self.sets.update({"f1": f1, "f2": f2, "alias": alias, "mix": mix})
+        # only the FIRST tensor differs from the original ones (a partial substitution must not reorder anything)
+        first = [self._fresh(self.orig[0])] + list(self.orig[1:])
+        self.sets.update({"f1": f1, "f2": f2, "alias": alias, "mix": mix, "first": first})
         # reference model
         self.ref = []            # python list used as a stack: (label, tensors)
         self.locks = 0
@@ -940,13 +946,135 @@ def run_protocol(cfg):
             "transitions": transitions}
 
 
+# =================================================================== alias partitions of the declared parameters
+
+def _partitions(k):
+    """all set partitions of k slots as restricted growth strings (slot -> class index, classes numbered by first
+    occurrence)"""
+    def rec(prefix, m):
+        if len(prefix) == k:
+            yield tuple(prefix)
+            return
+        for c in range(m + 1):
+            yield from rec(prefix + [c], max(m, c + 1))
+    return list(rec([], 0))
+
+
+def run_alias(cfg):
+    """every way in which the declared names of an EditableModule / LinearOperator can share tensor objects (all
+    set partitions of k names): the unique-parameter list is the distinct tensors in order of first occurrence,
+    substituting a list of new tensors installs new[class] under EVERY name of the class, an inner substitution and
+    its unwinding restore the outer one, and at rest the object holds the caller's tensors under every name."""
+    k, kindo = cfg["k"], cfg["obj"]
+    viol, seen = [], set()
+    nexec = states = 0
+
+    def add(failure, detail, **at):
+        if failure not in seen:
+            seen.add(failure)
+            viol.append(V(failure, detail, **at))
+
+    names = ["t%d" % i for i in range(k)]
+
+    class EM(xitorch.EditableModule):
+        def __init__(self, tens):
+            for nm, t in zip(names, tens):
+                setattr(self, nm, t)
+
+        def f(self, x):
+            return sum((i + 1.0) * getattr(self, nm) for i, nm in enumerate(names)) * x
+
+        def getparamnames(self, methodname, prefix=""):
+            return [prefix + nm for nm in names]
+
+    class LO(LinearOperator):
+        def __init__(self, tens):
+            super().__init__(shape=(2, 2), dtype=DT)
+            for nm, t in zip(names, tens):
+                setattr(self, nm, t)
+
+        def _mv(self, x):
+            return sum((i + 1.0) * getattr(self, nm) for i, nm in enumerate(names)) * x
+
+        def _getparamnames(self, prefix=""):
+            return [prefix + nm for nm in names]
+
+    for part in _partitions(k):
+        ncls = max(part) + 1
+        orig = [torch.full((2,), 0.5 + 0.25 * c, dtype=DT) for c in range(ncls)]
+        new1 = [torch.full((2,), 2.0 + 0.5 * c, dtype=DT) for c in range(ncls)]
+        new2 = [torch.full((2,), -1.0 - 0.5 * c, dtype=DT) for c in range(ncls)]
+        obj = (EM if kindo == "em" else LO)([orig[c] for c in part])
+        at = {"partition": "".join(str(c) for c in part)}
+
+        def held():
+            return [getattr(obj, nm) for nm in names]
+
+        def same(lst, ref):
+            return len(lst) == len(ref) and all(a is b for a, b in zip(lst, ref))
+
+        def expect(cls_tensors):
+            return [cls_tensors[c] for c in part]
+
+        def getu():
+            return list(obj.getuniqueparams("f")) if kindo == "em" else list(obj.getlinopparams())
+        o = call(getu)
+        nexec += 1
+        states += 1
+        if o.exc is not None:
+            add("alias:unique-params-raise:%s" % type(o.exc).__name__, {"message": str(o.exc)[:200], **at}, **at)
+            continue
+        if not same(o.value, orig):
+            add("alias:unique-params-are-not-the-distinct-tensors-in-first-occurrence-order",
+                {"n_returned": len(o.value), "n_classes": ncls, **at}, **at)
+            continue
+        if kindo == "em":
+            o1 = call(obj.setuniqueparams, "f", *new1)
+            nexec += 1
+            states += 1
+            if o1.exc is not None:
+                add("alias:setuniqueparams-raises:%s" % type(o1.exc).__name__, {"message": str(o1.exc)[:200], **at}, **at)
+                continue
+            if not same(held(), expect(new1)):
+                add("alias:substitution-installs-wrong-tensor", {"stage": "set", **at}, **at)
+            o2 = call(obj.setuniqueparams, "f", *orig)
+            nexec += 1
+            states += 1
+            if o2.exc is not None or not same(held(), expect(orig)):
+                add("alias:restore-leaves-other-tensors", {"stage": "restore", **at}, **at)
+        else:
+            def nested():
+                inside = []
+                with obj.uselinopparams(*new1):
+                    inside.append(same(held(), expect(new1)))
+                    with obj.uselinopparams(*new2):
+                        inside.append(same(held(), expect(new2)))
+                    inside.append(same(held(), expect(new1)))
+                return inside
+            o1 = call(nested)
+            nexec += 3
+            states += 4
+            if o1.exc is not None:
+                add("alias:uselinopparams-raises:%s" % type(o1.exc).__name__, {"message": str(o1.exc)[:200], **at}, **at)
+                continue
+            if not all(o1.value):
+                add("alias:substitution-installs-wrong-tensor", {"inside": o1.value, **at}, **at)
+            if not same(held(), expect(orig)):
+                add("alias:restore-leaves-other-tensors", {"stage": "at-rest", **at}, **at)
+    return {"viol": viol, "obs": {"k": k, "obj": kindo, "partitions": len(_partitions(k)), "nviol": len(viol)},
+            "status": "violation" if viol else "ok", "n": nexec, "states": states, "transitions": nexec}
+
+
 def run_case(cfg):
     if cfg["search"] == "protocol":
         return run_protocol(cfg)
+    if cfg["search"] == "alias":
+        return run_alias(cfg)
     return run_crash(cfg)
 
 
 def coverage_extra(tier, seed, results):
+    results = [r for r in results if r["cfg"]["search"] != "alias"] or results
     crash = [r for r in results if r["cfg"]["search"] == "crash"]
     proto = [r for r in results if r["cfg"]["search"] == "protocol"]
     dims = {}
